@@ -11,6 +11,11 @@ use tracing_subscriber::layer::SubscriberExt;
 
 static MD: Metadata<'static> = Metadata::new("c17", MLevel::INFO, None);
 
+const WIDE_A: &[&str] = &["a00", "a01", "a02", "a03", "a04", "a05", "a06", "a07", "a08", "a09", "a10", "a11", "a12", "a13", "a14", "a15", "a16", "a17", "a18", "a19", "a20", "a21", "a22", "a23", "a24", "a25", "a26", "a27", "a28", "a29"];
+const WIDE_B: &[&str] = &["b00", "b01", "b02", "b03", "b04", "b05", "b06", "b07", "b08", "b09", "b10", "b11", "b12", "b13", "b14", "b15", "b16", "b17", "b18", "b19", "b20", "b21", "b22", "b23", "b24", "b25", "b26", "b27", "b28", "b29"];
+/// numeric field values, including ones that do not fit the signed types
+const NUMS: &[u64] = &[0, 1, 2, 3, 4, u64::MAX, (i64::MAX as u64) + 1, 0xdead_beef_0000_0001, i64::MAX as u64];
+
 const VALS: &[&str] = &["", "ferris", "v2", "é", "a b"];
 
 /// Ordered label map of the reference model (insertion order as an IndexMap keeps it).
@@ -55,10 +60,13 @@ fn make_span(shape: u8, parent: Option<Option<&Span>>, v1: &str, n: u64, flag: b
         2 => (mk!("s_empty",), vec![]),
         3 => (mk!("s_late", user = Empty, late = Empty, fixed = "f"), vec![("fixed", "f".to_string())]),
         4 => {
-            let d = vec![n, n + 1];
-            (mk!("s_types", flag = flag, dbg = ?d, disp = %v1, signed = -(n as i64), fl = 1.5f64), vec![("flag", flag.to_string()), ("dbg", format!("{:?}", d)), ("disp", v1.to_string()), ("signed", (-(n as i64)).to_string()), ("fl", format!("{:?}", 1.5f64))])
+            let d = vec![n, n.wrapping_add(1)];
+            (mk!("s_types", flag = flag, dbg = ?d, disp = %v1, signed = (n as i64).wrapping_neg(), fl = 1.5f64), vec![("flag", flag.to_string()), ("dbg", format!("{:?}", d)), ("disp", v1.to_string()), ("signed", (n as i64).wrapping_neg().to_string()), ("fl", format!("{:?}", 1.5f64))])
         }
         5 => (mk!("s_service_only", service = v1), vec![("service", v1.to_string())]),
+        // wide spans: nested, they carry 60 labels (label maps beyond the pooled size)
+        7 => (mk!("s_wide_a", a00 = v1, a01 = v1, a02 = v1, a03 = v1, a04 = v1, a05 = v1, a06 = v1, a07 = v1, a08 = v1, a09 = v1, a10 = v1, a11 = v1, a12 = v1, a13 = v1, a14 = v1, a15 = v1, a16 = v1, a17 = v1, a18 = v1, a19 = v1, a20 = v1, a21 = v1, a22 = v1, a23 = v1, a24 = v1, a25 = v1, a26 = v1, a27 = v1, a28 = v1, a29 = v1), WIDE_A.iter().map(|k| (*k, v1.to_string())).collect()),
+        8 => (mk!("s_wide_b", b00 = v1, b01 = v1, b02 = v1, b03 = v1, b04 = v1, b05 = v1, b06 = v1, b07 = v1, b08 = v1, b09 = v1, b10 = v1, b11 = v1, b12 = v1, b13 = v1, b14 = v1, b15 = v1, b16 = v1, b17 = v1, b18 = v1, b19 = v1, b20 = v1, b21 = v1, b22 = v1, b23 = v1, b24 = v1, b25 = v1, b26 = v1, b27 = v1, b28 = v1, b29 = v1), WIDE_B.iter().map(|k| (*k, v1.to_string())).collect()),
         _ => (mk!("s_tenant_user", tenant = v1, user = Empty), vec![("tenant", v1.to_string())]),
     }
 }
@@ -93,6 +101,8 @@ fn declared(shape: u8) -> &'static [&'static str] {
         3 => &["user", "late", "fixed"],
         4 => &["flag", "dbg", "disp", "signed", "fl"],
         5 => &["service"],
+        7 => WIDE_A,
+        8 => WIDE_B,
         _ => &["tenant", "user"],
     }
 }
@@ -113,9 +123,9 @@ fn gen_script(r: &mut Rng, depth: u32, len: usize, nspans: &mut usize) -> Vec<S>
             0 | 1 | 2 => {
                 let parent = if *nspans > 0 && r.chance(1, 4) { Parent::Explicit(r.usize(*nspans)) } else if r.chance(1, 8) { Parent::Root } else { Parent::Contextual };
                 *nspans += 1;
-                S::New { shape: r.below(7) as u8, parent, v: r.usize(VALS.len()), n: r.below(5), flag: r.chance(1, 2) }
+                S::New { shape: r.below(9) as u8, parent, v: r.usize(VALS.len()), n: *r.pick(NUMS), flag: r.chance(1, 2) }
             }
-            3 | 4 if *nspans > 0 => S::Record { span: r.usize(*nspans), field: r.below(4) as u8, v: r.usize(VALS.len()), n: 10 + r.below(5) },
+            3 | 4 if *nspans > 0 => S::Record { span: r.usize(*nspans), field: r.below(4) as u8, v: r.usize(VALS.len()), n: if r.chance(1, 2) { 10 + r.below(5) } else { *r.pick(NUMS) } },
             5 | 6 if *nspans > 0 && depth > 0 => {
                 let sp = r.usize(*nspans);
                 let l = 1 + r.usize(5);
